@@ -86,6 +86,7 @@ class ZarrArraySpec:
         variants_chunk_size,
         samples_chunk_size,
         array_name=None,
+        shared_dimension_sizes=None,
     ):
         shape = [num_variants]
         prefix = "variant_"
@@ -104,12 +105,15 @@ class ZarrArraySpec:
             chunks.append(vcf_field.summary.max_number)
             # TODO we should really be checking this to see if the named dimensions
             # are actually correct.
-            if vcf_field.vcf_number == "R":
-                dimensions.append("alleles")
-            elif vcf_field.vcf_number == "A":
-                dimensions.append("alt_alleles")
-            elif vcf_field.vcf_number == "G":
-                dimensions.append("genotypes")
+            shared_name = {"R": "alleles", "A": "alt_alleles", "G": "genotypes"}.get(
+                vcf_field.vcf_number
+            )
+            if shared_dimension_sizes is not None and shared_name is not None:
+                # A shared dimension name can only be used if the sizes agree
+                if shared_dimension_sizes.get(shared_name) != shape[-1]:
+                    shared_name = None
+            if shared_name is not None:
+                dimensions.append(shared_name)
             else:
                 dimensions.append(f"{vcf_field.category}_{vcf_field.name}_dim")
         return ZarrArraySpec.new(
@@ -244,6 +248,21 @@ class VcfZarrSchema(core.JsonDataclass):
             f"Generating schema with chunks={variants_chunk_size, samples_chunk_size}"
         )
 
+        alt_field = icf.fields["ALT"]
+        max_alleles = alt_field.vcf_field.summary.max_number + 1
+        shared_dimension_sizes = {
+            "alleles": max_alleles,
+            "alt_alleles": max_alleles - 1,
+            "genotypes": max(
+                [
+                    field.summary.max_number
+                    for field in icf.metadata.fields
+                    if field.vcf_number == "G"
+                ],
+                default=0,
+            ),
+        }
+
         def spec_from_field(field, array_name=None):
             return ZarrArraySpec.from_field(
                 field,
@@ -252,6 +271,7 @@ class VcfZarrSchema(core.JsonDataclass):
                 samples_chunk_size=samples_chunk_size,
                 variants_chunk_size=variants_chunk_size,
                 array_name=array_name,
+                shared_dimension_sizes=shared_dimension_sizes,
             )
 
         def fixed_field_spec(
@@ -271,9 +291,6 @@ class VcfZarrSchema(core.JsonDataclass):
                 dimensions=dimensions,
                 chunks=chunks or [variants_chunk_size],
             )
-
-        alt_field = icf.fields["ALT"]
-        max_alleles = alt_field.vcf_field.summary.max_number + 1
 
         array_specs = [
             fixed_field_spec(
